@@ -54,6 +54,15 @@ Line protocol for C16. One case = one op line.
     out: `cancelwrite a=cancelled part_at_cancel=<len>`, `after_b lookup=ok symindex=complete`,
     `observations bad=<0|1>`, `final symindex=complete|bad`.
 
+`cancelwrite site=download …`: the same on the downloader call site (A's download is cancelled in
+    `stream.read().await` while the server holds the rest of the body back; B downloads a replaced file).
+
+`poolwait k=<K> waiters=<W> seed=<s>`
+    one runtime whose blocking pool has K threads; creator 0 sits in its write callback (which writes through a
+    `tokio::fs::File`), W ≥ K further creators wait for the lock, then creator 0 writes. Waiting for the lock must
+    not use the blocking pool (file_creation.rs:208-212). Model: W+1 creators whose writers succeed.
+    out: `poolwait created=1 existing=<W> err=0 stuck=0`, `final dest=complete part=absent lock=absent`.
+
 In `round` ops `cw` creators are cancelled (mode=threads) or SIGKILLed (mode=procs) while they are blocked in
 flock; `sig=<S>` (mode=procs) sends S signals without SA_RESTART to every blocked flock thread (EINTR and
 retry: no transition of the model); `sigx=<K>` (mode=procs) signals the last K late creators until their retry
@@ -457,6 +466,19 @@ def simCancelWrite (ws : List String) : List String :=
        s!"observations bad={if cls s3 = "bad" ∨ cls s2 = "bad" then 1 else 0}",
        s!"final symindex={cls s3}"]
 
+def simPoolwait (ws : List String) : List String :=
+  let w := kvNat ws "waiters" 1
+  let cfg : Cfg := { fates := [], sizes := [2, 1] }
+  let pids := List.range (w + 1)
+  -- creator 0 is parked inside its callback while the others arrive and block
+  let sim : Sim := { gateOpen := false, gateIdx := some 0 }
+  let sim := drain cfg sim [0]
+  let sim := drain cfg sim pids
+  let sim := drain cfg { sim with gateOpen := true } pids
+  let count (o : String) : Nat := (pids.filter fun p => (outcomeOf sim p).startsWith o).length
+  [s!"poolwait created={count "created"} existing={count "existing"} err={count "err"} stuck={count "stuck"}",
+   finalLine sim]
+
 def model (ls : List String) : List String :=
   match ls with
   | [l] =>
@@ -464,6 +486,7 @@ def model (ls : List String) : List String :=
     match ws.head? with
     | some "symindexfault" => simSymindexFault ws
     | some "cancelwrite" => simCancelWrite ws
+    | some "poolwait" => simPoolwait ws
     | some "download" => simDownload ws
     | some "trace" => simTrace ws
     | some "round" => simRound ws
@@ -556,6 +579,18 @@ def judgeCancelWrite (_ws impl : List String) : Bool × String :=
     else (true, "ok")
   | _, _, _, _ => (false, "missing summary lines")
 
+def judgePoolwait (ws impl : List String) : Bool × String :=
+  match findLine impl "poolwait", findLine impl "final" with
+  | some r, some f =>
+    let n := kvNat ws "waiters" 1 + 1
+    let dest := (kv f "dest").getD "?"
+    if kvNat r "stuck" 1 ≠ 0 then (false, s!"{kvNat r "stuck" 1} creators never finished: the creators waiting for the lock prevented the lock holder's attempt from completing")
+    else if dest ≠ "complete" then (false, s!"final destination is {dest}")
+    else if kvNat r "created" 0 ≠ 1 then (false, s!"{kvNat r "created" 0} creators report having created the file")
+    else if kvNat r "created" 0 + kvNat r "existing" 0 ≠ n then (false, s!"only {kvNat r "created" 0 + kvNat r "existing" 0} of {n} fault-free creators succeeded")
+    else (true, "ok")
+  | _, _ => (false, "missing summary lines")
+
 def judge (ops impl : List String) : Bool × String :=
   match ops with
   | [l] =>
@@ -563,6 +598,7 @@ def judge (ops impl : List String) : Bool × String :=
     match ws.head? with
     | some "symindexfault" => judgeSymindexFault ws impl
     | some "cancelwrite" => judgeCancelWrite ws impl
+    | some "poolwait" => judgePoolwait ws impl
     | some "download" => judgeDownload ws impl
     | some "trace" => judgeTrace ws impl
     | some "round" => judgeRound ws impl
